@@ -406,7 +406,12 @@ def validate_records(ctx: Ctx, recs: list[dict], module: str | None = None, env:
     if env:
         e.update(env)
     # JSON import in TLC is single-threaded: large batches are split over a few JVMs
-    parts = max(1, min(4, (len(uniq) + 3999) // 4000))
+    # ... and no part may be larger than a JVM can hold comfortably: a 275 MB part once drove an 8 GB JVM into
+    # permanent garbage collection (a part is cut at about 90 MB of JSON; at most four JVMs run at a time)
+    lines = [json.dumps({a: b for a, b in r.items() if a != "gen"}, ensure_ascii=True, separators=(",", ":")) for r in uniq]
+    by_count = max(1, min(4, (len(uniq) + 3999) // 4000))
+    by_bytes = (sum(map(len, lines)) + 90_000_000 - 1) // 90_000_000
+    parts = max(by_count, by_bytes)
     size = (len(uniq) + parts - 1) // parts
     jobs = []
     for pi in range(parts):
@@ -415,19 +420,20 @@ def validate_records(ctx: Ctx, recs: list[dict], module: str | None = None, env:
             continue
         tf = ctx.scratch.dir / f"traces-{module}-{n}-{pi}.ndjson"
         vf = ctx.scratch.dir / f"verdicts-{module}-{n}-{pi}.ndjson"
-        write_ndjson(tf, [{a: b for a, b in r.items() if a != "gen"} for r in uniq[lo:hi]])
+        tf.write_text("\n".join(lines[lo:hi]) + "\n")
         jobs.append((lo, tf, vf))
+    del lines
 
     def one(job):
         lo, tf, vf = job
         ee = dict(e)
         ee.update({"TRACE_FILE": str(tf), "VERDICT_FILE": str(vf)})
-        return run_tlc(ctx.scratch, module, f"{module}.cfg", env=ee, workers=max(2, NCPU // len(jobs)))
+        return run_tlc(ctx.scratch, module, f"{module}.cfg", env=ee, workers=max(2, NCPU // min(4, len(jobs))))
 
     # prepare the scratch copy of the spec before going parallel
     sany_copy(ctx.scratch)
     from concurrent.futures import ThreadPoolExecutor
-    with ThreadPoolExecutor(len(jobs)) as ex:
+    with ThreadPoolExecutor(min(4, len(jobs))) as ex:
         results = list(ex.map(one, jobs))
     by_tid = {}
     for (lo, tf, vf), r in zip(jobs, results):
